@@ -420,6 +420,19 @@ func r7PatternAnchored(w *World, r *Report, rule string) {
 			if g := x.Call.StaticCallee(); g != nil && g.String() == "fmt.Sprintf" {
 				return isConst(x.Call.Args[0], "^(", ")$")
 			}
+			// a helper of the module that returns the wrapped text
+			if g := x.Call.StaticCallee(); g != nil && g.Blocks != nil && strings.HasPrefix(pkgPathOf(g), modPath) && g.Signature.Results().Len() == 1 {
+				nret := 0
+				for _, gb := range g.Blocks {
+					if ret, ok := gb.Instrs[len(gb.Instrs)-1].(*ssa.Return); ok {
+						nret++
+						if !wrapped(ret.Results[0], d+1) {
+							return false
+						}
+					}
+				}
+				return nret > 0
+			}
 		}
 		return false
 	}
@@ -442,6 +455,11 @@ func r7PatternAnchored(w *World, r *Report, rule string) {
 	}
 	if n == 0 {
 		panic(undecided{"PatternArg.Parse: regexp.Compile"})
+	}
+	if rule == "R16.4" {
+		r.Check(why == "", rule, "PatternArg.Parse anchoring", f.Pos(), "\"^(\" + pattern + \")$\"", "the pattern is not wrapped as ^(…)$: a value that merely contains a match, or matches one alternative of an unparenthesised '|', is accepted")
+		r.Check(why == "", rule, "PatternArg.Parse anchors on every path", f.Pos(), "regexp.Compile(\"^(\" + … + \")$\") on every path", "on some path the expression handed to regexp.Compile is not the ^(…)$ wrapping (e.g. patterns that already carry anchors are left alone): \"^a|b$\" then accepts any value that starts with a or ends with b")
+		return
 	}
 	r.Check(why == "", rule, "PatternArg.Parse anchors the whole pattern", f.Pos(), "^( pattern )$ on every path", why+", not the pattern in one group between ^ and $: for a branched pattern `(a)|(b)` the anchors bind to the first and last branch only, and a derived type accepts values its pattern should refuse")
 }
